@@ -831,9 +831,27 @@ def _workbook_readback(tier="quick", seed=0):
 
     repo = os.environ.get("PPTX_REPO", "/repo")
     bad = None
+    def without_workbooks(path):
+        """the deck as a producer that caches values only writes it: no c:externalData, no embedded workbook (zip-level rewrite)"""
+        import re as _re
+        import zipfile as _zf
+
+        out_ = io.BytesIO()
+        with _zf.ZipFile(path) as zin, _zf.ZipFile(out_, "w", _zf.ZIP_DEFLATED) as zout:
+            for n_ in zin.namelist():
+                d_ = zin.read(n_)
+                if _re.fullmatch(r"ppt/charts/chart\d+\.xml", n_):
+                    d_ = _re.sub(rb"<c:externalData[^>]*/>|<c:externalData.*?</c:externalData>", b"", d_, flags=_re.S)
+                elif _re.fullmatch(r"ppt/charts/_rels/chart\d+\.xml\.rels", n_):
+                    d_ = _re.sub(rb"<Relationship [^>]*relationships/package[^>]*/>", b"", d_)
+                elif n_.startswith("ppt/embeddings/"):
+                    continue
+                zout.writestr(n_, d_)
+        return io.BytesIO(out_.getvalue())
+
     for f in sorted(glob.glob(os.path.join(repo, "features", "steps", "test_files", "cht-*.pptx"))):
-        for nser in (1, 2, 4):
-            prs_ = _Prs(f)
+        for nser, stripped in ((1, False), (2, False), (4, False), (2, True)):
+            prs_ = _Prs(without_workbooks(f) if stripped else f)
             for sl_ in prs_.slides:
                 for shp in sl_.shapes:
                     if not getattr(shp, "has_chart", False) or not shp.has_chart:
@@ -855,7 +873,11 @@ def _workbook_readback(tier="quick", seed=0):
                     except Exception as e:
                         bad = bad or "%s %s: replace_data raised %r" % (os.path.basename(f), shp.name, e)
                         continue
-                    cells_ = cells_of(ch_.part.chart_workbook.xlsx_part.blob)
+                    wb_ = ch_.part.chart_workbook.xlsx_part
+                    if wb_ is None:
+                        bad = bad or "%s %s%s: after replace_data the chart names workbook cells but has no embedded workbook" % (os.path.basename(f), shp.name, " (arrived without a workbook)" if stripped else "")
+                        continue
+                    cells_ = cells_of(wb_.blob)
                     root_ = etree.fromstring(etree.tostring(ch_._chartSpace))
                     sers_ = root_.xpath("//c:ser", namespaces=cns)
                     if len(sers_) != nser:
